@@ -330,7 +330,10 @@ PROBES = ["rescale", "resample", "plane_attributes", "fit_tilt_copy_other_mask",
         {"seed": st.integers(0, 2**31 - 1), "n": st.sampled_from([7, 8]), "m": st.sampled_from([8, 9]),
          "steps": st.lists(st.tuples(st.sampled_from(OP_NAMES), st.integers(0, 11)), min_size=3,
                            max_size=12 if tier == "quick" else 20),
-         "probe_p": st.integers(0, 11), "dxk": st.integers(0, 10**6)}),
+         "probe_p": st.integers(0, 11), "dxk": st.integers(0, 10**6),
+         # the probes whose result is taken BEFORE the history (on the cold world) and compared afterwards: a drawn
+         # ordered subset, so that one probe's baseline is not always preceded by the same other probes
+         "probes": st.lists(st.sampled_from(PROBES), min_size=1, max_size=4, unique=True)}),
      "programs of 3-20 registry calls on ONE shared world: after every call all shared objects are byte-identical, "
      "and a fixed set of probe calls gives the same result before and after the history", examples=(250, 1000),
      budget_s=(200, 900))
@@ -338,7 +341,8 @@ def history(case, ctx):
     world = World(case["seed"], case["n"], case["m"], case.get("dxk", 0))
     before = [snap(o) for o in world.watched()]
     base = {}
-    for pr in PROBES:
+    probes = case.get("probes") or PROBES
+    for pr in probes:
         with lentil_call("C10.history.probe", pr):
             base[pr] = run_op(pr, world, case["probe_p"])
     names = [s[0] for s in case["steps"]]
@@ -352,12 +356,12 @@ def history(case, ctx):
         if changed:
             raise Violation("C10.history.mutation", f"step {i} ({name}) modified shared object(s) {changed} "
                                                     f"[history: {' > '.join(names[:i + 1])}]")
-    for pr in PROBES:
+    for pr in probes:
         with lentil_call("C10.history.probe", pr + " (after)"):
             again = run_op(pr, world, case["probe_p"])
         if not same_result(base[pr], again):
             raise Violation("C10.history.result", f"{pr} gives a different result after the history "
-                                                  f"[{' > '.join(names)}]")
+                                                  f"[{' > '.join(names)}] (baseline probes taken first: {probes})")
 
 
 # ---------------------------------------------------------------------------------------------------
